@@ -821,3 +821,481 @@ def subband_callsite(R, K, nprng):
     finally:
         K.subband = real
         shutil.rmtree(d, ignore_errors=True)
+
+
+# =================================================================================================
+# at-scale search: the same kernels on millions of elements
+# =================================================================================================
+F24 = 1 << 24            # float32 holds every integer up to here: every float32 sum below is kept under it
+
+
+def _sc_ints(nprng, n, hi, dt):
+    """n integers of [0, hi) in dtype dt"""
+    return nprng.integers(0, int(hi), int(n), dtype=np.uint8 if hi <= 256 else np.uint16).astype(dt, copy=False)
+
+
+def _sc_data(nprng, C, N, dt, vcap, row_cap=None, col_cap=None):
+    """flat (N, C) block of integers of [0, vcap): sums over the channels of a sample stay <= row_cap, sums over the samples of a
+    channel <= col_cap (dense random values when the caps allow values above 1, else a few ones per row / per column)"""
+    hi = vcap
+    if row_cap is not None:
+        hi = min(hi, row_cap // C + 1)
+    if col_cap is not None:
+        hi = min(hi, col_cap // N + 1)
+    if hi >= 2:
+        return _sc_ints(nprng, C * N, hi, dt)
+    x = np.zeros((N, C), dtype=dt)
+    if row_cap is not None and row_cap // C < 1:          # very many channels: at most m ones in a sample
+        m = int(min(row_cap, 16))
+        x[np.arange(N)[:, None], nprng.integers(0, C, (N, m))] = 1
+    else:                                                 # very many samples: at most m ones in a channel
+        m = int(min(col_cap, 16))
+        x[nprng.integers(0, N, (m, C)), np.arange(C)[None, :]] = 1
+    return x.ravel()
+
+
+def _sc_wide(nprng, n, dn):
+    """n values over the whole range of the dtype (kernels that only move data)"""
+    if dn == "u1":
+        return nprng.integers(0, 256, n, dtype=np.uint8)
+    v = nprng.integers(-(1 << 31), (1 << 31) - 1, n, dtype=np.int32).astype(np.float32)
+    v *= np.float32(1e29)                                 # finite, up to 2.1e38
+    return v
+
+
+def _sc_delayed(X, d, n, cts, S):
+    """acc[t, s] = sum over the channels c of sub-band s of X[t + d[c], c]   (float64, exact on integer data)"""
+    acc = np.zeros((n, S))
+    C = X.shape[1]
+    for v in np.unique(d):
+        idx = np.flatnonzero(d == v)
+        rows = X[int(v):int(v) + n]
+        if S == 1:
+            acc[:, 0] += (rows if idx.size == C else rows[:, idx]).sum(1, dtype=np.float64)
+            continue
+        subs = cts[idx]
+        if np.any(subs[1:] < subs[:-1]):
+            o = np.argsort(subs, kind="stable")
+            idx, subs = idx[o], subs[o]
+        starts = np.flatnonzero(np.r_[True, subs[1:] != subs[:-1]])
+        blk = (rows if idx.size == C else rows[:, idx]).astype(np.float64)
+        acc[:, subs[starts]] += np.add.reduceat(blk, starts, axis=1)
+    return acc
+
+
+def _sc_zero_sum(nprng, shape, m, axes):
+    """int16 integers of [-m*len(axes), m*len(axes)] whose sum along each of `axes` is zero"""
+    p = np.zeros(shape, dtype=np.int16)
+    for ax in axes:
+        if shape[ax] > 1:
+            d = nprng.integers(0, m + 1, shape, dtype=np.int16)
+            p += d
+            p -= np.roll(d, 1, axis=ax)
+    return p
+
+
+def scale_build(K, nprng, kernel, dn, p):
+    """one at-scale case of `kernel` on dtype dn with parameters p -> (call(fn) -> output, expected output, iterations of the
+    parallel loop, elements, largest |value| a float32 has to hold).  Deterministic in (nprng state, kernel, dn, p): a case is replayed by calling this again."""
+    dt = {"u1": np.uint8, "f4": np.float32, "i4": np.int32, "f8": np.float64}[dn]
+    vcap = 256 if dn == "u1" else 1000
+    f8 = np.float64
+    if kernel == "extract_tim":
+        C, N, idx = p
+        x = _sc_data(nprng, C, N, dt, vcap, row_cap=F24 - 1)
+        o0 = _sc_ints(nprng, N + idx + 2, 50, np.float32)
+        want = o0.copy()
+        s = x.reshape(N, C).sum(1, dtype=f8)
+        want[idx:idx + N] = s.astype(np.float32)
+
+        def call(f):
+            o = o0.copy(); f(x, o, C, N, idx); return o
+        return call, want, N, C * N, float(s.max(initial=0))
+    if kernel == "extract_bpass":
+        C, N = p
+        x = _sc_data(nprng, C, N, dt, vcap, col_cap=F24 - 64)
+        o0 = _sc_ints(nprng, C, 50, np.float32)
+        s = o0.astype(f8) + x.reshape(N, C).sum(0, dtype=f8)
+        want = s.astype(np.float32)
+
+        def call(f):
+            o = o0.copy(); f(x, o, C, N); return o
+        return call, want, C, C * N, float(s.max(initial=0))
+    if kernel == "mask_channels":
+        C, N = p
+        x = _sc_wide(nprng, C * N, dn)
+        mask = nprng.integers(0, 2, C).astype(bool)
+        mask[int(nprng.integers(0, C))] = True
+        mv = dt(201) if dn == "u1" else np.float32(-7.5)
+        want = x.copy()
+        want.reshape(N, C)[:, mask] = mv
+
+        def call(f):
+            y = x.copy(); f(y, mask.copy(), mv, C, N); return y
+        return call, want, C, C * N, 0.0
+    if kernel in ("dedisperse", "subband"):
+        if kernel == "dedisperse":
+            C, N, md, idx = p
+            S = 1
+        else:
+            C, N, S, md = p
+            idx = 0
+        d = nprng.integers(0, md + 1, C).astype(np.int32)
+        d[int(nprng.integers(0, C))] = md
+        x = _sc_data(nprng, C, N, dt, vcap, row_cap=F24 - 64)
+        n = N - md
+        cts = (np.arange(C, dtype=np.int32) // (C // S)).astype(np.int32)
+        o0 = _sc_ints(nprng, n * S + idx + 1, 50, np.float32)
+        s = _sc_delayed(x.reshape(N, C), d, n, cts, S).ravel() + o0[idx:idx + n * S]
+        want = o0.copy()
+        want[idx:idx + n * S] = s.astype(np.float32)
+        if kernel == "dedisperse":
+            def call(f):
+                o = o0.copy(); f(x, o, d, md, C, N, idx); return o
+        else:
+            def call(f):
+                o = o0.copy(); f(x, o, d, cts, md, C, S, N); return o
+        return call, want, n, C * N, float(s.max(initial=0))
+    if kernel == "invert_freq":
+        C, N = p
+        x = _sc_wide(nprng, C * N, dn)
+        want = x.reshape(N, C)[:, ::-1].ravel().copy()
+        return (lambda f: f(x, C, N)), want, N, C * N, 0.0
+    if kernel == "remove_zerodm":
+        C, N = p
+        if dn == "u1":      # results must stay inside 0..255:  0 <= x - zerodm * w + bp  with  zerodm <= 200 <= bp <= 202, x <= 50
+            x = _sc_data(nprng, C, N, dt, 51, row_cap=200)
+            bp = (200 + nprng.integers(0, 3, C)).astype(np.float32)
+        else:
+            x = _sc_data(nprng, C, N, dt, 10, row_cap=F24 // 2)
+            bp = nprng.integers(0, 3, C).astype(np.float32)
+        wts = nprng.integers(0, 2, C).astype(np.float32)
+        X = x.reshape(N, C)
+        z = X.sum(1, dtype=np.int64).astype(np.int32)          # everything here is an integer below 2**24: int32 arithmetic is exact
+        r = X.astype(np.int32)
+        r -= z[:, None] * wts.astype(np.int32)[None, :]
+        r += bp.astype(np.int32)[None, :]
+        big = float(np.abs(r).max(initial=0)) if dn != "u1" else (0.0 if (r.min(initial=0) >= 0 and r.max(initial=0) <= 255) else float(F24))
+        want = np.full(x.size + 1, 7, dtype=dt)
+        want[:x.size] = r.ravel().astype(dt)
+        del r
+
+        def call(f):
+            o = np.full(x.size + 1, 7, dtype=dt); f(x, o, bp, wts, C, N); return o
+        return call, want, N, C * N, big
+    if kernel == "downsample_1d_mean_parallel":
+        n, fac = p
+        nout = n // fac
+        m = 20
+        k = nprng.integers(m, (256 if dn == "u1" else 1000) - m, (nout, 1), dtype=np.int16)
+        v = k + _sc_zero_sum(nprng, (nout, fac), m, (1,))
+        arr = np.concatenate([v.ravel(), nprng.integers(0, 50, n - nout * fac, dtype=np.int16)])
+        del v
+        if dn == "i4":      # int32 data next to the upper limit of the dtype (fac * 2**31 < 2**53: the float64 bin sums stay exact)
+            arr = arr.astype(np.int64) + 2147480000
+        arr = arr.astype(dt)
+        s = arr[:nout * fac].reshape(nout, fac).sum(1, dtype=np.int64)
+        big = 0.0 if np.all(s % fac == 0) else float(F24)      # the mean of every bin is an integer
+        want = (s // fac).astype(dt)
+        return (lambda f: f(arr, fac)), want, nout, n, big
+    if kernel == "downsample_2d_mean_parallel":
+        d1, d2, f1, f2 = p
+        n1, n2 = d1 // f1, d2 // f2
+        m = 10
+        k = nprng.integers(2 * m, (256 if dn == "u1" else 1000) - 2 * m, (n1, 1, n2, 1), dtype=np.int16)
+        a = np.zeros((d1, d2), dtype=np.int16)
+        a[:] = nprng.integers(0, 50, (1, d2), dtype=np.int16)
+        a[:, n2 * f2:] += 3
+        a[:n1 * f1, :n2 * f2] = (k + _sc_zero_sum(nprng, (n1, f1, n2, f2), m, (1, 3))).reshape(n1 * f1, n2 * f2)
+        if dn == "i4":      # int32 data next to the lower limit of the dtype
+            a = a.astype(np.int64) - 2147480000
+        arr = a.astype(dt).ravel()
+        del a
+        s = arr.reshape(d1, d2)[:n1 * f1, :n2 * f2].reshape(n1, f1, n2, f2).sum(axis=(1, 3), dtype=np.int64)
+        big = 0.0 if np.all(s % (f1 * f2) == 0) else float(F24)
+        want = (s // (f1 * f2)).astype(dt).ravel()
+        return (lambda f: f(arr, f1, f2, d1, d2)), want, n1, d1 * d2, big
+    raise KeyError(kernel)
+
+
+def scale_moments_data(nprng, C, N, cmax, flat_after=None):
+    """moments_data, vectorised: x_n = mean_{n-1} + n * c_n with c_n in 0..cmax, so the running mean of every channel is an integer;
+    after `flat_after` samples every further sample equals the mean (the central sums then stay what they were).  int32 (N, C)."""
+    c = nprng.integers(0, cmax + 1, (N, C), dtype=np.int32)
+    c[0] = nprng.integers(1, 40, C, dtype=np.int32)
+    if flat_after is not None:
+        c[flat_after:] = 0
+    x = c * np.arange(1, N + 1, dtype=np.int32)[:, None]
+    np.cumsum(c, axis=0, out=c)
+    x[1:] += c[:-1]
+    return x
+
+
+# (kernel, dtype, parameters): C = channels, N = samples.  Element counts straddle 2**16, 2**18, 2**20, 2**22 and 2**24 in both
+# orientations (very many samples / very many channels), offsets and delays beyond 2**16
+_SC_SAMPLES = [(1, 65535), (1, 65536), (1, 65537), (256, 256), (257, 255), (3, 87382), (4, 65536), (512, 513), (1, 1048577), (16, 65536),
+               (1023, 1025), (64, 16385), (63, 66577), (65537, 1), (65537, 3), (262145, 2), (1048577, 2), (4194305, 1), (1, 4194305)]
+_SC_SAMPLES_X = {"u1": [(64, 65536), (2048, 2049), (16, 1048577), (16777217, 1), (1, 16777217)], "f4": [(16, 1048577)]}
+_SC_CHANS = [(65535, 1), (65536, 1), (65537, 1), (65537, 3), (256, 256), (262145, 2), (4, 65536), (513, 512), (1048577, 1), (1048576, 4),
+             (16385, 64), (1025, 1023), (4194305, 1), (66577, 63), (1, 65537), (3, 87382), (4, 1048577), (1, 4194305)]
+_SC_CHANS_X = {"u1": [(65536, 64), (2049, 2048), (1048577, 16), (16777217, 1), (16, 1048577), (1, 16777217)], "f4": [(1048577, 16), (16, 1048577)]}
+
+
+def scale_specs():
+    sp = []
+    for dn in ("u1", "f4"):
+        for C, N in _SC_SAMPLES + _SC_SAMPLES_X[dn]:
+            sp.append(("extract_tim", dn, (C, N, (C + N) % 4)))
+            sp.append(("invert_freq", dn, (C, N)))
+            sp.append(("remove_zerodm", dn, (C, N)))
+            md = min(N - 1, (C * 7 + N) % 6)
+            sp.append(("dedisperse", dn, (C, N, md, (C + N) % 4)))
+            subs = [s for s in (4, 64) if C % s == 0 and s < C] + ([C] if 1 < C <= 4096 else [])
+            for S in ([1] + subs if C * N < (1 << 22) else (subs[-1:] or [1])):
+                sp.append(("subband", dn, (C, N, S, md)))
+        sp.append(("extract_tim", dn, (4, 16384, (1 << 20) + 3)))            # a gulp written far into the output (index beyond 2**16, 2**20)
+        sp.append(("extract_tim", dn, (64, 16385, 65535)))
+        sp.append(("dedisperse", dn, (4, 20000, 1000, (1 << 20) + 3)))
+        sp.append(("dedisperse", dn, (8, 200000, 70001, 65537)))             # delays beyond 2**16
+        sp.append(("dedisperse", dn, (64, 70000, 40000, 0)))
+        sp.append(("subband", dn, (64, 140000, 8, 66000)))
+        sp.append(("subband", dn, (16, 300000, 16, 1 << 17)))
+        for C, N in _SC_CHANS + _SC_CHANS_X[dn]:
+            sp.append(("extract_bpass", dn, (C, N)))
+            sp.append(("mask_channels", dn, (C, N)))
+    for dn, n, fac in (("u1", 65535, 1), ("u1", 65536, 2), ("f4", 65537, 3), ("f4", 262145, 7), ("u1", 1048579, 2), ("i4", 1048576, 49),
+                       ("f8", 4194305, 98), ("u1", 4194304, 1), ("f4", 4194309, 65537), ("u1", 16777221, 16), ("i4", 3 * 1048577 + 5, 1048577),
+                       ("f4", 16777216, 4), ("u1", 16777217, 65536), ("f8", 1048577, 1), ("u1", 300007, 3)):
+        sp.append(("downsample_1d_mean_parallel", dn, (n, fac)))
+    for dn, d1, d2, f1, f2 in (("u1", 65537, 4, 2, 2), ("f4", 4, 65537, 2, 2), ("u1", 1025, 1023, 3, 2), ("f4", 16385, 64, 2, 1),
+                               ("u1", 70000, 64, 4, 2), ("i4", 70001, 64, 7, 7), ("f8", 4099, 1024, 14, 7), ("u1", 4097, 4099, 7, 7),
+                               ("f4", 2049, 2047, 1, 2), ("u1", 3, 1048577, 1, 65537), ("f4", 262145, 16, 65537, 1), ("u1", 16, 1048577, 16, 1),
+                               ("u1", 262145, 16, 1, 16), ("i4", 2, 2097153, 2, 1), ("f4", 2097153, 2, 1, 2)):
+        sp.append(("downsample_2d_mean_parallel", dn, (d1, d2, f1, f2)))
+    return sp
+
+
+def _sc_cfgs(iters, maxthreads, elements):
+    """(threads, parallel chunk size): one thread (the sequential evaluation of the compiled loop), all threads with the default split,
+    and dynamic schedules with some 61 / 5 chunks of a size that does not divide the loop"""
+    c = [(1, 0), (maxthreads, 0), (min(7, maxthreads), max(1, iters // 61))]
+    if elements < (1 << 21):
+        c.append((min(3, maxthreads), max(1, iters // 5)))
+    out = []
+    for t in c:
+        if t not in out:
+            out.append(t)
+    return out
+
+
+def scale(R: vlib.Run):
+    """at-scale search: every parallel kernel on 2**16 .. 2**24 (+-1) elements in both orientations (samples >> channels, channels >>
+    samples), offsets / delays / factors beyond 2**16, moments over > 16384 samples and hundreds of chunks, and Filterbank.subband
+    over 150000 samples with gulps 16384 / non-dividing / > 65536 -- under 1, 3, 7 and all threads and several chunk sizes, against
+    NumPy float64/int64 references on data whose float32 arithmetic is exact"""
+    os.environ.setdefault("OMP_WAIT_POLICY", "PASSIVE")
+    import numba
+    from sigpyproc.core import kernels as K
+    seed = R.seed + 1919
+    maxthreads = min(16, int(numba.config.NUMBA_NUM_THREADS))
+    saved_threads = numba.get_num_threads()
+    where = "props/c19.py scale_build(K, numpy.random.default_rng([seed, case_index]), kernel, dtype, params)"
+    nfail = {}
+
+    def report(key, what, case):
+        nfail[key] = nfail.get(key, 0) + 1
+        if nfail[key] <= 3:
+            R.fail(key, what, case)
+
+    def run_cfgs(fn, call, want, base, iters, elements, key_kernel):
+        """call the compiled kernel under every thread configuration; compare with the reference and with each other"""
+        wantb = out_bytes(want)
+        outs = []
+        for n, ch in _sc_cfgs(iters, maxthreads, elements):
+            case = dict(base, threads=n, chunksize=ch)
+            R.tick(case)
+            numba.set_num_threads(n)
+            numba.set_parallel_chunksize(ch)
+            try:
+                got = call(fn)
+            except Exception as e:  # noqa: BLE001
+                outs.append((n, ch, False, {"raised": f"{type(e).__name__}: {str(e)[:120]}"}))
+                continue
+            finally:
+                numba.set_parallel_chunksize(0)
+            ok = out_bytes(got) == wantb
+            outs.append((n, ch, ok, None if ok else first_diff(got, want)))
+            del got
+        bad = [o for o in outs if not o[2]]
+        if bad:
+            same = len(bad) == len(outs) and all(o[3] == bad[0][3] for o in bad)
+            if same:
+                report(f"scale-ref-{key_kernel}", "at scale the compiled kernel gives, under every thread configuration, a result that differs from the NumPy reference of its definition",
+                       dict(base, configurations=[[o[0], o[1]] for o in outs], diff=bad[0][3]))
+            else:
+                report(f"scale-sched-{key_kernel}", "at scale the result of the compiled kernel depends on the thread count / chunk size (and differs from the NumPy reference)",
+                       dict(base, agree_with_reference=[[o[0], o[1]] for o in outs if o[2]], differ=[{"threads": o[0], "chunksize": o[1], "diff": o[3]} for o in bad[:3]]))
+
+    try:
+        # ---------------- the kernels on exact data ------------------------------------------------
+        for i, (kernel, dn, p) in enumerate(scale_specs()):
+            nprng = np.random.default_rng([seed, i])
+            base = {"kernel": kernel, "dtype": dn, "params": list(p), "seed": seed, "case_index": i, "data": where}
+            R.tick(base)
+            R.case(("scale", kernel, dn, p), regime="scale")
+            call, want, iters, elements, big = scale_build(K, nprng, kernel, dn, p)
+            if big >= F24:     # the generator promised exact float32 arithmetic: never compare where it is not
+                R.notes.append(f"scale: case {i} ({kernel} {dn} {p}) skipped: its sums reach {big:.0f}, float32 arithmetic would not be exact")
+                continue
+            run_cfgs(getattr(K, kernel), call, want, base, iters, elements, kernel)
+            del call, want
+
+        # ---------------- online moments ---------------------------------------------------------
+        scale_moments(R, K, numba, seed, maxthreads, report)
+
+        # ---------------- Filterbank.subband: the kernel call it really makes, at scale -----------
+        scale_subband_site(R, K, numba, seed, maxthreads, report)
+    finally:
+        numba.set_num_threads(saved_threads)
+        numba.set_parallel_chunksize(0)
+
+
+def scale_moments(R, K, numba, seed, maxthreads, report):
+    """(a) very many channels x a few samples, two chunks: every field exact;  (b) 1001 samples in 143 chunks of 7, the samples after
+    the sixth equal to the mean: every field exact (the float32 record holds the sums);  (c) > 16384 / > 65536 / > 2**20 samples in
+    chunks of a gulp: count, extrema and mean exact, central sums to float32 accuracy.  Always bit-identical across configurations."""
+    table = [("a", C, N, [N // 2], 2) for C, N in ((65535, 5), (65536, 4), (65537, 5), (262145, 4), (1048577, 4))]
+    table += [("b", 5, 1001, list(range(7, 1001, 7)), 2), ("b", 1, 1001, list(range(7, 1001, 7)), 2), ("b", 300, 2000, list(range(16, 2000, 16)), 2)]
+    table += [("c", 4, 70000, [], 1), ("c", 4, 70000, list(range(16384, 70000, 16384)), 2), ("c", 1, 70001, [65537], 1), ("c", 64, 20000, [16384], 2),
+              ("c", 16, 1048577, [], 1), ("c", 16, 262145, [100000, 200000], 2), ("c", 1024, 4100, [4096], 1),
+              ("c", 8, 50000, list(range(500, 50000, 500)), 2)]
+    for j, (cls, C, N, cuts, cmax) in enumerate(table):
+        nprng = np.random.default_rng([seed, 5000 + j])
+        flat = 6 if cls == "b" else None
+        x = scale_moments_data(nprng, C, N, cmax, flat)
+        gen = f"props/c19.py scale_moments_data(numpy.random.default_rng([{seed}, {5000 + j}]), {C}, {N}, {cmax}, {flat})"
+        tot = x.sum(0, dtype=np.int64)
+        if x.max() >= F24 or np.any(tot % N):
+            R.notes.append(f"scale: moments case {j} skipped: samples reach {int(x.max())} or a mean is not an integer")
+            continue
+        xf = x.astype(np.float32).ravel()
+        bounds = [0] + list(cuts) + [N]
+        # reference: exact mean, central sums in float64
+        mu = tot // N
+        ref = np.zeros((C, 7))
+        ref[:, 0] = N; ref[:, 1] = mu; ref[:, 5] = x.min(0); ref[:, 6] = x.max(0)
+        d = x - mu
+        del x
+        d = d.astype(np.float64)
+        dk = d * d
+        ref[:, 2] = dk.sum(0)
+        dk *= d
+        ref[:, 3] = dk.sum(0)
+        dk *= d
+        ref[:, 4] = dk.sum(0)
+        del d, dk
+        tol = np.zeros((C, 7))
+        if cls == "c" or np.abs(ref[:, 2:5]).max() >= F24:
+            rt = 3e-7 * (len(bounds) + 1)
+            tol[:, 2:5] = rt * np.abs(ref[:, 2:5])
+            tol[:, 3] = np.maximum(tol[:, 3], rt * N * (ref[:, 2] / N) ** 1.5)     # the third central sum may cancel: scale N * sigma**3
+        for basic in (False, True):
+            name = "compute_online_moments_basic" if basic else "compute_online_moments"
+            fn = getattr(K, name)
+            base = {"kernel": name, "channels": C, "samples": N,
+                    "chunks_end_at": cuts if len(cuts) < 8 else f"{cuts[0]}, {cuts[1]}, ... (every {cuts[1] - cuts[0]})", "seed": seed, "data": gen}
+            R.tick(base)
+            R.case(("scale", name, C, N, len(cuts)), regime="scale")
+            want = ref.copy()
+            if basic:
+                want[:, 3:5] = 0
+            first = None
+            for n, ch in _sc_cfgs(C, maxthreads, C * N):
+                case = dict(base, threads=n, chunksize=ch)
+                mom = np.zeros(C, dtype=K.moments_dtype)
+                numba.set_num_threads(n)
+                err = None
+                for a, b in zip(bounds[:-1], bounds[1:]):
+                    R.tick(case)
+                    numba.set_parallel_chunksize(ch)
+                    try:
+                        fn(xf[a * C:b * C], mom, a)
+                    except Exception as e:  # noqa: BLE001
+                        err = f"{type(e).__name__}: {str(e)[:120]}"
+                        break
+                    finally:
+                        numba.set_parallel_chunksize(0)
+                if err is not None:
+                    report(f"scale-ref-{name}", "at scale the moments kernel raised", dict(case, raised=err, chunk=[a, b]))
+                    continue
+                rows = rec_to_rows(mom)
+                if first is None:
+                    first = rows
+                elif rows.tobytes() != first.tobytes():
+                    report(f"scale-sched-{name}", "at scale the accumulated moments depend on the thread count / chunk size",
+                           dict(case, versus={"threads": 1, "chunksize": 0}, diff=first_diff(rows, first)))
+                    continue
+                badm = ~(np.abs(rows - want) <= tol)
+                if badm.any():
+                    ic, fld = (int(t) for t in np.argwhere(badm)[0])
+                    report(f"scale-ref-{name}", "at scale the accumulated moments differ from the moments of the samples (count, extrema and mean exactly; "
+                                                "central sums exactly while float32 holds them, else to float32 accuracy)",
+                           dict(case, channel=ic, field=FIELDS[fld], got=float(rows[ic, fld]), expected=float(want[ic, fld]), n_different=int(badm.sum())))
+        del xf, ref, tol
+
+
+def scale_subband_site(R, K, numba, seed, maxthreads, report):
+    import filutil
+    from sigpyproc.readers import FilReader
+    d = os.path.join(vlib.SCRATCH, f"c19s_{os.getpid()}")
+    os.makedirs(d, exist_ok=True)
+    try:
+        for j, (nch, N, nsub) in enumerate(((64, 150000, 8), (8, 300000, 8), (1024, 20000, 4))):
+            ranges = ((0, N), (4321, N - 10000)) if j == 0 else ((123, N - 123),)
+            nprng = np.random.default_rng([seed, 9000 + j])
+            x = nprng.integers(0, 200, (N, nch), dtype=np.uint8)
+            p = filutil.write_fil(os.path.join(d, f"s{j}.fil"), x, 8, fch1=400.0, foff=-200.0 / nch, tsamp=0.001)
+            fil = FilReader(p)
+            dm = next((float(v) for v in np.linspace(0.5, 400, 400) if 1500 < int(fil.header.get_dmdelays(float(v)).max()) < 3000), 1.0)
+            delays = np.asarray(fil.header.get_dmdelays(dm)).astype(np.int64)
+            delays = delays - min(0, int(delays.min()))
+            md = int(delays.max())
+            cts = np.arange(nch) // (nch // nsub)
+            for start, nsamps in ranges:
+                want = _sc_delayed(x[start:start + nsamps], delays, nsamps - md, cts, nsub).astype(np.float32)
+                for gulp in (16384, 20011, 70000):
+                    for n, ch in ((maxthreads, 0), (min(7, maxthreads), 271)) + (((1, 0),) if gulp == 16384 else ()):
+                        case = {"call": "FilReader(file).subband(dm, nsub, gulp=gulp, start=start, nsamps=nsamps)", "nbits": 8, "nchans": nch, "N": N, "nsub": nsub,
+                                "dm": dm, "maxdelay": md, "start": start, "nsamps": nsamps, "gulp": gulp, "threads": n, "chunksize": ch, "seed": seed,
+                                "data": f"numpy.random.default_rng([{seed}, {9000 + j}]).integers(0, 200, (N, nchans), dtype=uint8), see props/c19.py scale_subband_site()"}
+                        R.tick(case)
+                        R.case(("scale", "subband-site", nch, start, gulp, n, ch), regime="scale")
+                        out = os.path.join(d, "out.sub")
+                        real = K.subband
+
+                        def chunked(*a, real=real, ch=ch):     # the chunk size is consumed by the next parallel region: set it at the call
+                            numba.set_parallel_chunksize(ch)
+                            try:
+                                return real(*a)
+                            finally:
+                                numba.set_parallel_chunksize(0)
+                        numba.set_num_threads(n)
+                        K.subband = chunked
+                        try:
+                            fil.subband(dm, nsub, outfile_name=out, gulp=gulp, start=start, nsamps=nsamps, quiet=True)
+                            o = FilReader(out)
+                            got = o.read_block(0, o.header.nsamples).data.T
+                            err = None
+                        except Exception as e:  # noqa: BLE001
+                            got, err = None, f"{type(e).__name__}: {str(e)[:100]}"
+                        finally:
+                            K.subband = real
+                        if err is not None or got.shape != want.shape or not np.array_equal(got, want):
+                            diff = err if err is not None else ({"shape_got": list(got.shape), "shape_expected": list(want.shape)} if got.shape != want.shape
+                                                                else first_diff(got, want))
+                            report("scale-subband-callsite", "Filterbank.subband at scale differs from sum over the channels of a sub-band of x[t + delay_c][c] under this thread configuration",
+                                   dict(case, diff=diff))
+            del fil, x
+            os.remove(p)
+    finally:
+        shutil.rmtree(d, ignore_errors=True)
